@@ -34,7 +34,7 @@ TABLE = {
           ('every_reference_state_is_reachable_as_a_concrete_state', '@abs_surjective Names.parse', []),
           ('mutator_defaults_in_source_are_the_modelled_ones', 'mutator_defaults', []),
           ]),
- 'C02': ('Base Digraph DigraphProofs Names Graph GraphObs GraphInv GraphAcyclicProofs Extracted SourceFacts SFValidate Serial Matrix Skeleton TSGraph LagMatrix CtorAcyclicProofs CtorAcyclicLag',
+ 'C02': ('Base Digraph DigraphProofs Names Graph GraphObs GraphInv GraphAcyclicProofs Extracted SourceFacts SFValidate Serial Matrix Skeleton TSGraph LagMatrix CtorAcyclicProofs CtorAcyclicLag PyRt PyRtLoop Queries TraversalGenLemmas TraversalGenCyc TraversalGenCycProofs',
          'C02 — validated graphs never hold a directed cycle; is_dag() reports exactly that.',
          [('cycle_check_is_exact_and_terminates', 'cycle_check Names.parse', ['cycle_check_statement']),
           ('validated_step_preserves_acyclicity', 'acyclic_step Names.parse Names.fmt', ['acyclic_step_statement']),
@@ -62,6 +62,10 @@ TABLE = {
           ('from_adjacency_matrices_with_validation_succeeds_iff_unvalidated_result_is_acyclic', 'from_adjacency_matrices_true_iff', []),
           ('from_adjacency_matrices_cyclic_refused', 'from_adjacency_matrices_cyclic_refused', []),
           ('is_dag_exact_on_graphs_built_from_lagged_matrices', 'lag_is_dag_spec', []),
+          ('translated_cycle_check_equals_the_stack_loop_model_for_every_fuel', '@gen_assert_no_self_dependency_equiv', []),
+          ('translated_cycle_check_raises_iff_the_node_is_on_a_directed_cycle', '@gen_assert_no_self_dependency_spec', []),
+          ('translated_cycle_check_unknown_identifier_is_a_key_error', '@gen_assert_no_self_dependency_missing', []),
+          ('translated_cycle_check_on_every_invariant_graph_state', 'gen_assert_no_self_dependency_cycle_check', []),
           ]),
  'C03': ('Base Digraph Names Graph GraphObs GraphInv GraphAtomicLemmas GraphAtomicProofs Extracted SourceFacts SFMutators',
          'C03 — a rejected mutation leaves the graph exactly as it was.\n'
@@ -203,7 +207,7 @@ TABLE = {
           ('edge_type_spellings_in_source_are_the_modelled_ones', 'edge_type_values_exact', []),
           ('equality_defaults_in_source_are_the_modelled_ones', 'serialisation_and_equality_defaults', []),
           ]),
- 'C10': ('Base Digraph DigraphProofs Queries QueriesProofs Names Graph GraphObs GraphInv Bridge BridgeProofs Extracted SourceFacts SFTopo Serial SubGraph SubGraphProofs Equality TopoSort TopoSortProofs',
+ 'C10': ('Base Digraph DigraphProofs Queries QueriesProofs Names Graph GraphObs GraphInv Bridge BridgeProofs Extracted SourceFacts SFTopo Serial SubGraph SubGraphProofs Equality TopoSort TopoSortProofs PyRt PyRtLoop TraversalGenLemmas TraversalGenQ TraversalGenQProofs',
          'C10 — structural queries agree with their graph-theoretic definitions.',
          [('descendants_are_directed_reachability', '@desc_spec', []),
           ('ancestors_are_directed_reachability', '@anc_spec', []),
@@ -251,6 +255,13 @@ TABLE = {
           ('default_topological_order_on_every_graph_state', '@v_topological_order_correct', []),
           ('default_topological_order_depends_only_on_node_order_and_adjacency_order', '@topological_sort_depends', []),
           ('default_topological_order_of_equal_graphs_can_differ_refuted', 'equal_graphs_same_order_refuted', []),
+          ('translated_memoised_helper_simulates_the_model_for_every_graph_fuel_and_cache', '@gen_inner_sim', []),
+          ('translated_get_nodes_between_equals_the_model_on_every_dag', '@gen_nodes_between_equiv', []),
+          ('translated_get_nodes_between_returns_exactly_the_nodes_on_directed_paths', '@gen_nodes_between_correct', []),
+          ('translated_get_nodes_between_refuses_non_dags', '@gen_nodes_between_not_dag', []),
+          ('translated_directed_path_exists_equals_the_model_for_every_fuel', '@gen_directed_path_exists_equiv', []),
+          ('translated_directed_path_exists_decides_directed_reachability', '@gen_directed_path_exists_correct', []),
+          ('translated_directed_path_exists_unknown_node_is_an_assertion_error', '@gen_directed_path_exists_missing', []),
           ]),
  'C11': ('Base Digraph DSep DSepProofs Moral MoralProofs Names Graph GraphObs GraphInv Bridge BridgeProofs Extracted SourceFacts SFSepSet',
          'C11 — d-separation answers match the graphical definition.\n'
